@@ -3,7 +3,7 @@
     form, re-scaling law, getBin for scale <= 0).  Part D: invariants of the exponential
     histogram over arbitrary measurement sequences.  Part E: the certified binary-logarithm
     index used to judge positive-scale buckets. *)
-From Coq Require Import ZArith NArith List Lia Bool ZifyBool ZifyNat ZifyN.
+From Coq Require Import ZArith NArith List Lia Bool Permutation ZifyBool ZifyNat ZifyN.
 From Verif Require Import Lib.Base Lib.Dyadic C07.Model C07.Spec.
 Import ListNotations.
 Open Scope Z_scope.
@@ -1686,4 +1686,123 @@ Proof.
   rewrite count_where_map, !count_where_filter. split; apply count_where_ext; intros x _; cbv beta.
   - destruct (Z.ltb_spec 0 x); cbn [andb]; [|reflexivity]. symmetry. apply in_bucketb_exact; lia.
   - destruct (Z.ltb_spec x 0); cbn [andb]; [|reflexivity]. symmetry. apply in_bucketb_exact; lia.
+Qed.
+
+(* ====================================================================== *)
+(** * Part G: arbitrary configured boundary lists (the aggregator sorts its copy) *)
+
+Lemma strictly_weakly l : strictly_increasing l = true -> weakly_increasing l = true.
+Proof.
+  induction l as [|a l IH]; [reflexivity|]. destruct l as [|b r]; [reflexivity|].
+  cbn [strictly_increasing weakly_increasing] in *.
+  intro H. apply andb_true_iff in H as [H1 H2]. rewrite IH by exact H2. lia.
+Qed.
+
+Lemma weakly_increasing_tail a r : weakly_increasing (a :: r) = true -> weakly_increasing r = true.
+Proof. destruct r as [|b r]; cbn [weakly_increasing]; [reflexivity|]. intro H. apply andb_true_iff in H. tauto. Qed.
+
+Lemma weakly_increasing_head a r j :
+  weakly_increasing (a :: r) = true -> (j < length r)%nat -> a <= nth j r 0.
+Proof.
+  revert a j. induction r as [|b r IH]; intros a j H Hj; cbn [length] in Hj; [lia|].
+  cbn [weakly_increasing] in H. apply andb_true_iff in H as [H1 H2]. apply Z.leb_le in H1.
+  destruct j as [|j]; cbn [nth]; [exact H1|]. specialize (IH b j H2). lia.
+Qed.
+
+(** Uniqueness of the bucket needs only non-decreasing boundaries. *)
+Lemma bucket_index_unique_weak bounds k v :
+  weakly_increasing bounds = true -> in_explicit_bucket bounds k v -> k = bucket_index bounds v.
+Proof.
+  revert k. induction bounds as [|b r IH]; intros k Hs (Hk & Hlo & Hhi); cbn [bucket_index length] in *.
+  - lia.
+  - destruct (Z.leb_spec v b) as [Hle|Hgt].
+    + destruct k as [|k']; [reflexivity|exfalso].
+      destruct Hlo as [Hlo|Hlo]; [discriminate|]. replace (S k' - 1)%nat with k' in Hlo by lia.
+      destruct k' as [|k'']; cbn [nth] in Hlo; [lia|].
+      pose proof (weakly_increasing_head b r k'' Hs). lia.
+    + destruct k as [|k'].
+      * exfalso. destruct Hhi as [Hhi|Hhi]; [discriminate|]. cbn [nth] in Hhi. lia.
+      * f_equal. apply IH; [eapply weakly_increasing_tail; exact Hs|].
+        repeat split; [lia| |].
+        -- destruct k' as [|k'']; [now left|right].
+           destruct Hlo as [Hlo|Hlo]; [discriminate|].
+           replace (S (S k'') - 1)%nat with (S k'') in Hlo by lia. cbn [nth] in Hlo.
+           replace (S k'' - 1)%nat with k'' by lia. exact Hlo.
+        -- destruct Hhi as [Hhi|Hhi]; [left; lia|right; exact Hhi].
+Qed.
+
+Lemma in_explicit_bucketb_index_weak bounds k v :
+  weakly_increasing bounds = true ->
+  in_explicit_bucketb bounds k v = (bucket_index bounds v =? k)%nat.
+Proof.
+  intro Hs. destruct (Nat.eqb_spec (bucket_index bounds v) k) as [E|E].
+  - subst k. apply in_explicit_bucketb_spec, bucket_index_correct.
+  - destruct (in_explicit_bucketb bounds k v) eqn:H; [|reflexivity].
+    apply in_explicit_bucketb_spec in H. apply bucket_index_unique_weak in H; [congruence|exact Hs].
+Qed.
+
+Lemma explicit_point_ok_weak bounds v0 vs :
+  weakly_increasing bounds = true ->
+  exists h, hist_run bounds (v0 :: vs) = Some h /\ hist_point_ok bounds (v0 :: vs) (hist_to_point h).
+Proof.
+  intro Hs. pose proof (hist_run_inv bounds (v0 :: vs)) as H.
+  destruct (hist_run bounds (v0 :: vs)) as [h|]; cbn [hist_inv] in H; [|discriminate].
+  exists h. split; [reflexivity|].
+  destruct H as (_ & Hlen & Hnth & Hsum & Hcnt & Hmin & Hmax & Htot).
+  unfold hist_point_ok, hist_to_point. cbn [hp_counts hp_count hp_min hp_max hp_sum].
+  repeat split; try assumption; try apply Hmin; try apply Hmax.
+  intros k Hk. rewrite Hnth. apply count_where_ext. intros x _.
+  symmetry. apply in_explicit_bucketb_index_weak. exact Hs.
+Qed.
+
+(** The sort: a non-decreasing permutation of what was configured. *)
+Lemma insert_bound_perm x l : Permutation (x :: l) (insert_bound x l).
+Proof.
+  induction l as [|y r IH]; cbn [insert_bound]; [apply Permutation_refl|].
+  destruct (x <=? y); [apply Permutation_refl|].
+  eapply perm_trans; [apply perm_swap|]. now apply perm_skip.
+Qed.
+
+Lemma sort_bounds_perm l : Permutation l (sort_bounds l).
+Proof.
+  induction l as [|x r IH]; cbn [sort_bounds]; [constructor|].
+  eapply perm_trans; [apply perm_skip; exact IH|apply insert_bound_perm].
+Qed.
+
+Lemma weakly_cons2 a b r : weakly_increasing (a :: b :: r) = (a <=? b) && weakly_increasing (b :: r).
+Proof. reflexivity. Qed.
+
+Lemma insert_bound_weakly x l : weakly_increasing l = true -> weakly_increasing (insert_bound x l) = true.
+Proof.
+  induction l as [|y r IH]; intro H; cbn [insert_bound]; [reflexivity|].
+  destruct (Z.leb_spec x y) as [Hle|Hgt].
+  - rewrite weakly_cons2, H. lia.
+  - pose proof (IH (weakly_increasing_tail _ _ H)) as IH'.
+    destruct r as [|z r'].
+    + cbn [insert_bound]. rewrite weakly_cons2. cbn [weakly_increasing]. lia.
+    + rewrite weakly_cons2 in H. apply andb_true_iff in H as [H1 H2].
+      cbn [insert_bound] in *. destruct (Z.leb_spec x z).
+      * rewrite weakly_cons2, IH'. lia.
+      * rewrite weakly_cons2, IH'. lia.
+Qed.
+
+Lemma sort_bounds_weakly l : weakly_increasing (sort_bounds l) = true.
+Proof. induction l as [|x r IH]; cbn [sort_bounds]; [reflexivity|]. now apply insert_bound_weakly. Qed.
+
+Lemma sort_bounds_id l : weakly_increasing l = true -> sort_bounds l = l.
+Proof.
+  induction l as [|x r IH]; intro H; cbn [sort_bounds]; [reflexivity|].
+  rewrite IH by (eapply weakly_increasing_tail; exact H).
+  destruct r as [|y r']; cbn [insert_bound]; [reflexivity|].
+  rewrite weakly_cons2 in H. apply andb_true_iff in H as [H1 _]. now rewrite H1.
+Qed.
+
+(** Every clause, for EVERY configured boundary list, against the sorted list the point reports. *)
+Lemma explicit_any_bounds bounds v0 vs :
+  Permutation bounds (sort_bounds bounds) /\ weakly_increasing (sort_bounds bounds) = true /\
+  exists h, hist_run_cfg bounds (v0 :: vs) = Some h /\
+            hist_point_ok (sort_bounds bounds) (v0 :: vs) (hist_to_point h).
+Proof.
+  split; [apply sort_bounds_perm|]. split; [apply sort_bounds_weakly|].
+  apply explicit_point_ok_weak, sort_bounds_weakly.
 Qed.
